@@ -356,6 +356,27 @@ func msgScenario(c *Ctx, mm msgMatcher, mc msgCase) *Scenario {
 			if ok1 && ok2 {
 				return symBool(bytes.Equal(a, b)), true
 			}
+		case (callee == "bytes.TrimSuffix" || callee == "bytes.TrimPrefix") && len(args) == 2 && args[0].K == "slice":
+			// a sub-slice of the first argument (or the argument itself)
+			a, ok1 := concreteBytes(st, args[0])
+			b, ok2 := concreteBytes(st, args[1])
+			if ok1 && ok2 {
+				lo, hi := int64(0), int64(len(a))
+				if callee == "bytes.TrimSuffix" && bytes.HasSuffix(a, b) {
+					hi -= int64(len(b))
+				} else if callee == "bytes.TrimPrefix" && bytes.HasPrefix(a, b) {
+					lo += int64(len(b))
+				} else {
+					return args[0], true
+				}
+				l := symInt(hi - lo)
+				res := SV{K: "slice", Desc: fmt.Sprintf("%s[%d:%d]", args[0].Desc, lo, hi), Len: &l}
+				if args[0].Cap != nil && args[0].Cap.Known {
+					cp := symInt(args[0].Cap.N - lo)
+					res.Cap = &cp
+				}
+				return res, true
+			}
 		case callee == "bytes.HasPrefix" && len(args) == 2:
 			a, ok1 := concreteBytes(st, args[0])
 			b, ok2 := concreteBytes(st, args[1])
@@ -1210,6 +1231,15 @@ var msgMatchers = []msgMatcher{
 			{"no custom info", rdpCR(rdpHdr{}, rdpNeg), "no"},
 		},
 		source: "custom_info filter with a one-letter value",
+	},
+	{
+		fn: "modules/l4rdp.(*MatchRDP).Match", cfgName: "rdp custom_info of 235 bytes", heap: rdpCfg("", "", strings.Repeat("a", 235), ""), cfg: rdpJSON("", "", strings.Repeat("a", 235), ""),
+		cases: []msgCase{
+			{"that custom info", rdpCR(rdpHdr{}, cat([]byte(strings.Repeat("a", 235)+"\r\n"), rdpNeg)), "yes"},
+			{"its first 229 bytes", rdpCR(rdpHdr{}, cat([]byte(strings.Repeat("a", 229)+"\r\n"), rdpNeg)), "no"},
+			{"its first 234 bytes", rdpCR(rdpHdr{}, cat([]byte(strings.Repeat("a", 234)+"\r\n"), rdpNeg)), "no"},
+		},
+		source: "custom_info filter with a value longer than the longest cookie hash (the routing info may have up to 246 bytes, MS-RDPBCGR 2.2.1.1: it fills the X.224 request up to its one-byte length)",
 	},
 	{
 		fn: "modules/l4rdp.(*MatchRDP).Match", cfgName: "rdp custom_info_regexp=x", heap: rdpCfg("", "", "", "x"), cfg: rdpJSON("", "", "", "x"),
